@@ -215,7 +215,7 @@ class Parser:
 
     def _type(self):
         x = self.peek()
-        if self.accept("&"):
+        if self.accept("&") or self.accept("&&"):          # `&&T` (one token) is a reference to a reference  [iters chain]
             if self.peek().kind == "life": self.next()
             self.accept("mut"); self._type(); return
         if self.accept("*"):
@@ -778,6 +778,12 @@ class Parser:
                 params.append(("self", join_tokens(self.t[s:self.i])))
             else:
                 p = self.pattern()
+                if p[0] == "ptuple" and p[2] and all(q[0] == "pbind" and not q[3] for q in p[2]):
+                    # `(a, b): (A, B)` -- a tuple of plain bindings; the "name" is the tuple of names  [iters chain, util.rs iter_element]
+                    self.expect(":")
+                    params.append((tuple(q[2] for q in p[2]), self.parse_type()))
+                    if not self.accept(","): break
+                    continue
                 if p[0] != "pbind": self.lost("parameter pattern outside the subset", x)
                 self.expect(":")
                 params.append((p[2], self.parse_type()))
